@@ -5,6 +5,20 @@ import os
 import sys
 
 ROOT = os.path.dirname(os.path.dirname(os.path.abspath(__file__)))
+
+
+def _hook_commits():
+    """the commits in /repo whose subject starts with `verif:` (hooks behind the build tag)"""
+    import subprocess
+    try:
+        out = subprocess.run(["git", "-C", os.environ.get("HOP_REPO", "/repo"), "log", "--format=%h %s"],
+                             stdout=subprocess.PIPE, text=True, timeout=60).stdout
+    except Exception:
+        return []
+    return [l.split(" ", 1)[0] for l in out.split("\n") if " verif:" in l[:16]][::-1]
+
+
+HOOK_COMMITS = _hook_commits()
 sys.path.insert(0, ROOT)
 from lib import props  # noqa: E402
 TEXT = props.TEXT
@@ -36,7 +50,7 @@ m = {
         "guard": "verif",
         "enable": "go build -tags verif (the harness binaries under /verif/harness/cmd/* are built with it; files named verif_hooks.go carry //go:build verif)",
         "baseline_off_cmd": "cd /repo && GOFLAGS=-mod=mod GOPROXY=off go test -vet=off -count=1 -timeout 25m ./...",
-        "source_commits": [l.strip() for l in open(os.path.join(ROOT, "HOOK_COMMITS")) if l.strip()] if os.path.exists(os.path.join(ROOT, "HOOK_COMMITS")) else [],
+        "source_commits": HOOK_COMMITS,
         "add_only": True,
     },
     "engines": [{
